@@ -71,10 +71,12 @@ func damagedOffice(r *sim.Rand) ([]byte, string) {
 		if len(refs) > 0 {
 			all = refs
 		}
-		if r.Pct(30) {
+		if r.Pct(50) {
 			var fam []faults.Fault
 			for _, f := range all0 {
-				if f.Kind == "idref-family-renamed" {
+				main := strings.Contains(f.M, "workbook") || strings.Contains(f.M, "document") || strings.Contains(f.M, "presentation") ||
+					strings.Contains(f.M, ".rels") || strings.Contains(f.M, ".opf")
+				if f.Kind == "idref-family-renamed" && main {
 					fam = append(fam, f)
 				}
 			}
